@@ -56,6 +56,7 @@ func TestC17(t *testing.T) {
 	for i := 0; i < r.N(1500, 40000); i++ {
 		p := c17P{Cfg: Cfg{SC: []int{2, 8, 64}[rng.Intn(3)], IC: []int{2, 8, 64}[rng.Intn(3)], WB: []int{1, 2, 4, 64}[rng.Intn(4)], Flavour: []string{"plain", "ctx"}[rng.Intn(2)]},
 			Base: 3 + rng.Intn(4), Readers: 2 + rng.Intn(3), Iter: 4 + rng.Intn(5), Sched: uint64(rng.Intn(1 << 30)), PaceUs: []int{0, 50, 2000}[rng.Intn(3)]}
+		p.Cfg.Metrics = i%6 == 5
 		p.N = p.Base + 6 + rng.Intn(14)
 		nw := 2 + rng.Intn(3)
 		p.Writers = make([][][]int, nw)
